@@ -14,9 +14,11 @@
                    own; [ctor_ok]: it gives the severity its name says
      Forward       a push of a diagnostic made at another entry (`Err(err) => bp.error(err)`)
      Unmodelled w  a diagnostic of the code that NO constructor of the models stands for, with the reason.
-   Proofs/DiagMapProofs.v proves: the keys of the table are the keys of the inventory, in order; every entry has the severity
-   (and stage) its constructor has in the model, and is pushed by a method that asserts that severity; every
-   kind of AnalysisDiag.all_kinds and every code of [all_pcodes] is the image of an entry.  The theorems
+   The generator names the constructor of every site with the help of this table ([site_ctor] of Gen/DiagSites.v);
+   Proofs/DiagMapProofs.v proves, about the regenerated sites: every site has the severity (and stage) its
+   constructor has in the model, and is pushed by a method that asserts that severity; every kind of
+   AnalysisDiag.all_kinds and every code of [all_pcodes] is the constructor of a site; the pinned rows
+   (C07_diag_inventory: per stage and file the set of (severity, constructor)) are those of the sites.  The theorems
    about diagnostics quantify over these constructors, hence over every diagnostic of the code except the
    [Unmodelled] ones. *)
 From Coq Require Import List String NArith.
@@ -121,6 +123,92 @@ Definition callback_why : string :=
 Definition float_why : string :=
   "float() of Model/Parser.v is total: no code for a failing f64 parse of a float token".
 
+(* ---- the constructor a site of the regenerated inventory is given: Gen/DiagSites.v names it in [site_ctor] (the
+   generator looks the site up in [table] below: by key and message, else by message, else by key, else by
+   position; "unknown" when nothing fits) ---- *)
+Definition ctor_names : list (string * target) := [
+  ("Ctor", Ctor);
+  ("Forward", Forward);
+  ("AKind KDeprecated", AKind KDeprecated);
+  ("AKind KYamlError", AKind KYamlError);
+  ("Unmodelled callback_why", Unmodelled callback_why);
+  ("AKind KStdEntryYaml", AKind KStdEntryYaml);
+  ("AKind KTimeOverridenYaml", AKind KTimeOverridenYaml);
+  ("AKind KInvalidConfigValue", AKind KInvalidConfigValue);
+  ("AKind KUnknownConfigKey", AKind KUnknownConfigKey);
+  ("AKind KStdEntryMeta", AKind KStdEntryMeta);
+  ("AKind KTimeOverridden", AKind KTimeOverridden);
+  ("AKind KIgnoredText", AKind KIgnoredText);
+  ("AKind KIgnoredComponent", AKind KIgnoredComponent);
+  ("AKind KInterModifiers", AKind KInterModifiers);
+  ("AKind KIncompatibleUnits", AKind KIncompatibleUnits);
+  ("AKind KInterZero", AKind KInterZero);
+  ("AKind KInterBounds", AKind KInterBounds);
+  ("AKind KTimerValueText", AKind KTimerValueText);
+  ("AKind KTimerUnitNotTime", AKind KTimerUnitNotTime);
+  ("AKind KTimerUnitUnknown", AKind KTimerUnitUnknown);
+  ("AKind KScalingLock", AKind KScalingLock);
+  ("AKind KConflictModifiers", AKind KConflictModifiers);
+  ("AKind KRedundantModifier", AKind KRedundantModifier);
+  ("AKind KRefNotFound", AKind KRefNotFound);
+  ("AKind KNoteOnReference", AKind KNoteOnReference);
+  ("AKind KConflictQuantity", AKind KConflictQuantity);
+  ("AKind KTextValueInRef", AKind KTextValueInRef);
+  ("PCode D_META_INVALID", PCode D_META_INVALID);
+  ("PCode D_EMPTY_META_KEY", PCode D_EMPTY_META_KEY);
+  ("PCode D_EMPTY_META_VALUE", PCode D_EMPTY_META_VALUE);
+  ("PCode D_EMPTY_UNIT", PCode D_EMPTY_UNIT);
+  ("PCode D_EMPTY_VALUE", PCode D_EMPTY_VALUE);
+  ("PCode D_DIV_ZERO", PCode D_DIV_ZERO);
+  ("PCode D_INT_PARSE", PCode D_INT_PARSE);
+  ("Unmodelled float_why", Unmodelled float_why);
+  ("PCode D_SECTION_INVALID", PCode D_SECTION_INVALID);
+  ("PCode D_SINGLE_WORD", PCode D_SINGLE_WORD);
+  ("PCode D_DUP_MOD", PCode D_DUP_MOD);
+  ("PCode D_INTER_EMPTY", PCode D_INTER_EMPTY);
+  ("PCode D_INTER_ORDER", PCode D_INTER_ORDER);
+  ("PCode D_INTER_SIGN", PCode D_INTER_SIGN);
+  ("PCode D_INTER_INVALID", PCode D_INTER_INVALID);
+  ("PCode D_INTER_INT", PCode D_INTER_INT);
+  ("PCode D_MULTI_ALIAS", PCode D_MULTI_ALIAS);
+  ("PCode D_EMPTY_ALIAS", PCode D_EMPTY_ALIAS);
+  ("PCode D_COOKWARE_UNIT", PCode D_COOKWARE_UNIT);
+  ("PCode D_COOKWARE_RECIPE", PCode D_COOKWARE_RECIPE);
+  ("PCode D_TIMER_NO_UNIT", PCode D_TIMER_NO_UNIT);
+  ("PCode D_TIMER_NO_QTY", PCode D_TIMER_NO_QTY);
+  ("PCode D_TIMER_NEITHER", PCode D_TIMER_NEITHER);
+  ("PCode D_MODS_NOT_ALLOWED", PCode D_MODS_NOT_ALLOWED);
+  ("PCode D_INTER_NOT_ALLOWED", PCode D_INTER_NOT_ALLOWED);
+  ("PCode D_ALIAS_NOT_ALLOWED", PCode D_ALIAS_NOT_ALLOWED);
+  ("PCode D_NOTE_WARN", PCode D_NOTE_WARN);
+  ("PCode D_EMPTY_NAME", PCode D_EMPTY_NAME)
+].
+Fixpoint lookup_name (l : list (string * target)) (n : string) : option target :=
+  match l with
+  | [] => None
+  | (m, t) :: r => if String.eqb m n then Some t else lookup_name r n
+  end.
+Definition site_target (s : site) : option target := lookup_name ctor_names (site_ctor s).
+(* None ("unknown" or a name that is no constructor): not ok *)
+Definition site_ok (s : site) : bool :=
+  match site_target s with Some t => entry_ok (site_key s, t) | None => false end.
+Definition site_is_kind (k : akind) (s : site) : bool :=
+  match site_target s with Some (AKind k') => akind_eqb k k' | _ => false end.
+Definition site_is_pcode (c : N) (s : site) : bool :=
+  match site_target s with Some (PCode c') => N.eqb c c' | _ => false end.
+Definition site_is_forward (s : site) : bool := String.eqb (site_how s) "forward".
+
+(* the pinned rows are exactly the (stage, file, severity, constructor) of the sites that are not forward pushes *)
+Definition row_of (s : site) : stage * string * sev * string := (site_stage s, site_file s, site_sev s, site_ctor s).
+Definition row_eqb (a b : stage * string * sev * string) : bool :=
+  let '(s1, f1, v1, c1) := a in let '(s2, f2, v2, c2) := b in
+  stage_eqb s1 s2 && String.eqb f1 f2 && sev_eqb v1 v2 && String.eqb c1 c2.
+Definition summary_ok (ss : list site) (rows : list (stage * string * sev * string)) : bool :=
+  forallb (fun r => existsb (fun s => negb (site_is_forward s) && row_eqb (row_of s) r) ss) rows
+  && forallb (fun s => site_is_forward s || existsb (row_eqb (row_of s)) rows) ss.
+
+(* ---- the dictionary: site (fine key, wording as a comment) -> constructor.  It is the generator's way to name the
+   constructor of a site, not a pinned list: its keys are those of the tree it was last written for ---- *)
 Definition table : list (key * target) := [
   (Key AtAnalysis "event_consumer" "error!" "SourceDiag::error" IsError [] 0,
     Ctor);   (* "<$msg>" *)
